@@ -1,3 +1,176 @@
-(* C14 - placeholder statement file (theorems are added as they are proved). *)
-From Coq Require Import List ZArith Bool.
-From LW Require Import Base.Outcome Band.Channels Band.Planner Band.PlannerSpec.
+(* C14 - LinkADRReq channel-mask planning reaches exactly the network's channel set.
+   Statement file: each theorem is closed by [exact] of a lemma proved in
+   theories/Band, followed by Print Assumptions.
+
+   Vocabulary (theories/Band): [st] = the channel tables of a band (Channels.v);
+   [run s0 ops] = the state after the history [ops] of AddChannel / Disable / Enable;
+   [plan_generic] / [apply_generic] = band.go's planner and its inverse,
+   [plan_us] / [apply_us] = the US915 / AU915 overrides, [plan us] / [apply us] the
+   pair a band uses (Planner.v); [target s dev] = the network's enabled channels
+   among those the device can know (PlannerSpec.v); [configs] = the initial
+   tables of all 14 bands x repeater x dwell-time, dumped from the live code. *)
+From Coq Require Import List ZArith Bool Sorting.Sorted.
+From LW Require Import Base.Outcome Band.Channels Band.Planner Band.PlannerSpec Band.CrossLayer
+  Band.PlannerProofs Band.PlannerUSProofs Band.PlannerTotal Band.ChannelsGenProofs Band.EndToEnd.
+From LWGen Require Import ChannelsGen.
+Import ListNotations.
+Open Scope Z_scope.
+
+(* what the target list is: ascending, and exactly enabled /\ (standard \/ on the device) *)
+Theorem C14_target_membership : forall (s : st) dev i,
+  In i (target s dev) <->
+  In i (get_enabled_uplink_channel_indices s) /\ (In i (get_standard_uplink_channel_indices s) \/ In i dev).
+Proof. exact target_spec. Qed.
+Print Assumptions C14_target_membership.
+
+Theorem C14_target_sorted : forall (s : st) dev, StronglySorted Z.lt (target s dev).
+Proof. exact target_sorted. Qed.
+Print Assumptions C14_target_sorted.
+
+(* generic planner: for EVERY channel table of at most 256 channels and EVERY
+   device channel list (any order, duplicates allowed, entries below 256 - in
+   particular every list of valid indices), applying the planned payloads
+   yields exactly the target *)
+Theorem C14_generic_sound : forall (s : st) dev,
+  zlen (up s) <= 256 -> (forall c, In c dev -> 0 <= c < 256) ->
+  exists pls, plan_generic 16 s dev = Ok pls /\ apply_generic 16 s dev pls = Ok (target s dev).
+Proof. exact (generic_sound 16 eq_refl). Qed.
+Print Assumptions C14_generic_sound.
+
+(* ... and the same for any block size (the model's parameter), e.g. for the
+   exhaustive small-instance evaluation *)
+Theorem C14_generic_sound_any_block_size : forall B, 0 < B -> forall (s : st) dev,
+  zlen (up s) <= 256 -> (forall c, In c dev -> 0 <= c < 256) ->
+  exists pls, plan_generic B s dev = Ok pls /\ apply_generic B s dev pls = Ok (target s dev).
+Proof. exact generic_sound. Qed.
+Print Assumptions C14_generic_sound_any_block_size.
+
+(* beyond 256 channels the statement is false (finding C14-2: uint8 wrap of ChMaskCntl*16) *)
+Theorem C14_sound_refuted_above_256 :
+  exists s dev pls, zlen (up s) = 261 /\ in_range 261 dev = true /\
+    plan_generic 16 s dev = Ok pls /\ apply_generic 16 s dev pls = Ok [258] /\ target s dev = [0; 1; 2].
+Proof. exact sound_refuted_257. Qed.
+Print Assumptions C14_sound_refuted_above_256.
+
+(* at most one payload per 16-channel block (the property allows one more) *)
+Theorem C14_count : forall (s : st) dev, (forall c, In c dev -> 0 <= c < zlen (up s)) ->
+  exists pls, plan_generic 16 s dev = Ok pls /\ Z.of_nat (length pls) <= blocks 16 (zlen (up s)).
+Proof. exact (generic_count 16 eq_refl). Qed.
+Print Assumptions C14_count.
+
+(* nothing is produced when the device already matches *)
+Theorem C14_noop : forall (s : st) dev, same_set dev (target s dev) -> plan_generic 16 s dev = Ok [].
+Proof. exact (generic_noop 16). Qed.
+Print Assumptions C14_noop.
+
+(* every payload is encodable when the plan has at most 128 channels ... *)
+Theorem C14_encodable : forall (s : st) dev,
+  zlen (up s) <= 128 -> (forall c, In c dev -> 0 <= c < 128) ->
+  exists pls, plan_generic 16 s dev = Ok pls /\ forallb encodable pls = true.
+Proof. exact generic_encodable. Qed.
+Print Assumptions C14_encodable.
+
+(* ... which means: LinkADRReqPayload.MarshalBinary (model) accepts it and it decodes back *)
+Theorem C14_encodable_means : forall p, encodable p = true ->
+  exists bs, linkadrreq_marshal p = Ok bs /\ length bs = 4%nat /\
+             Forall (fun b => 0 <= b < 256) bs /\ linkadrreq_unmarshal bs = Ok p.
+Proof. exact CrossLayerProofs.linkadrreq_roundtrip. Qed.
+Print Assumptions C14_encodable_means.
+
+(* with 129 or more channels it is false (finding C14-1: ChMaskCntl > 7) *)
+Theorem C14_encodable_refuted_above_128 :
+  exists s dev pls, zlen (up s) = 133 /\ in_range 133 dev = true /\
+    plan_generic 16 s dev = Ok pls /\ forallb encodable pls = false.
+Proof. exact encodable_refuted_129. Qed.
+Print Assumptions C14_encodable_refuted_above_128.
+
+(* US915 / AU915: two strategies, the shorter wins; for the 72-channel layout
+   (no custom channels) the device ends up with exactly the enabled channels *)
+Theorem C14_us_sound : forall (s : st) dev, us_layout s -> (forall c, In c dev -> 0 <= c < 72) ->
+  exists pls, plan_us 16 s dev = Ok pls /\ apply_us 16 s dev pls = Ok (get_enabled_uplink_channel_indices s).
+Proof. exact us_sound. Qed.
+Print Assumptions C14_us_sound.
+
+Theorem C14_us_count : forall (s : st) dev, (forall c, In c dev -> 0 <= c < zlen (up s)) ->
+  exists pls, plan_us 16 s dev = Ok pls /\ Z.of_nat (length pls) <= blocks 16 (zlen (up s)).
+Proof. exact us_count. Qed.
+Print Assumptions C14_us_count.
+
+Theorem C14_us_noop : forall (s : st) dev, same_set dev (target s dev) -> plan_us 16 s dev = Ok [].
+Proof. exact us_noop. Qed.
+Print Assumptions C14_us_noop.
+
+Theorem C14_us_encodable : forall (s : st) dev, us_layout s -> (forall c, In c dev -> 0 <= c < 72) ->
+  exists pls, plan_us 16 s dev = Ok pls /\ forallb encodable pls = true.
+Proof. exact us_encodable. Qed.
+Print Assumptions C14_us_encodable.
+
+(* no panic, for EVERY device list (negative, huge, repeated entries) and EVERY payload list *)
+Theorem C14_planner_total : forall B (s : st) dev, exists pls, plan_generic B s dev = Ok pls.
+Proof. exact plan_generic_total. Qed.
+Print Assumptions C14_planner_total.
+
+Theorem C14_us_planner_total : forall B (s : st) dev, exists pls, plan_us B s dev = Ok pls.
+Proof. exact plan_us_total. Qed.
+Print Assumptions C14_us_planner_total.
+
+Theorem C14_apply_never_panics : forall (s : st) dev pls,
+  (exists r, apply_generic 16 s dev pls = Ok r) \/ apply_generic 16 s dev pls = Err.
+Proof. intros. now apply apply_generic_never_panics. Qed.
+Print Assumptions C14_apply_never_panics.
+
+Theorem C14_us_apply_never_panics : forall (s : st) dev pls, 72 <= zlen (up s) ->
+  (exists r, apply_us 16 s dev pls = Ok r) \/ apply_us 16 s dev pls = Err.
+Proof. exact apply_us_never_panics. Qed.
+Print Assumptions C14_us_apply_never_panics.
+
+(* the bands that exist (dumped on every run): all channels standard, at most
+   128 of them, and the two planner-overriding bands have the 72-channel layout *)
+Theorem C14_band_tables : forall nm rep dw s, In (nm, rep, dw, s) configs ->
+  (forall c, In c (up s) -> custom c = false) /\
+  (us_like nm = true -> us_layout s /\ extra s = false) /\ zlen (up s) <= 128.
+Proof.
+  intros nm rep dw s H. destruct (configs_spec nm rep dw s H) as [A [B [C _]]]. auto.
+Qed.
+Print Assumptions C14_band_tables.
+
+(* the property for the bands that exist: every configuration, every history,
+   every list of valid device channels (the 256-channel bound is finding C14-2) *)
+Theorem C14_all_bands_sound : forall nm rep dw s0 ops dev, In (nm, rep, dw, s0) configs ->
+  let s := run s0 ops in
+  zlen (up s) <= 256 -> (forall c, In c dev -> 0 <= c < zlen (up s)) ->
+  exists pls, plan (us_like nm) 16 s dev = Ok pls /\ apply (us_like nm) 16 s dev pls = Ok (target s dev).
+Proof. exact all_bands_sound. Qed.
+Print Assumptions C14_all_bands_sound.
+
+Theorem C14_all_bands_count : forall nm (s : st) dev, (forall c, In c dev -> 0 <= c < zlen (up s)) ->
+  exists pls, plan (us_like nm) 16 s dev = Ok pls /\ Z.of_nat (length pls) <= blocks 16 (zlen (up s)).
+Proof. exact all_bands_count. Qed.
+Print Assumptions C14_all_bands_count.
+
+Theorem C14_all_bands_noop : forall nm (s : st) dev,
+  same_set dev (target s dev) -> plan (us_like nm) 16 s dev = Ok [].
+Proof. exact all_bands_noop. Qed.
+Print Assumptions C14_all_bands_noop.
+
+(* the 128-channel bound is finding C14-1 *)
+Theorem C14_all_bands_encodable : forall nm rep dw s0 ops dev, In (nm, rep, dw, s0) configs ->
+  let s := run s0 ops in
+  zlen (up s) <= 128 -> (forall c, In c dev -> 0 <= c < zlen (up s)) ->
+  exists pls, plan (us_like nm) 16 s dev = Ok pls /\
+    forall p, In p pls -> encodable p = true /\
+      exists bs, linkadrreq_marshal p = Ok bs /\ linkadrreq_unmarshal bs = Ok p.
+Proof. exact all_bands_encodable. Qed.
+Print Assumptions C14_all_bands_encodable.
+
+(* non-vacuity: EU868 (configuration 32, standard channels 0 1 2) after adding a
+   channel (index 3, custom) and disabling channel 1: a device with {0, 1} must
+   end with {0, 2} - one payload for block 0, the added channel stays unknown;
+   a device that also has channel 3 keeps it; a device with {2, 0} already matches *)
+Example C14_example :
+  let s := run (match nth_error configs 32 with Some (_, _, _, s) => s | None => mkSt false 0 0 [] [] [] end)
+               [AddChannel 867100000 0 5; Disable 1] in
+  target s [0; 1] = [0; 2] /\ target s [0; 1; 3] = [0; 2; 3] /\
+  plan_generic 16 s [0; 1] = Ok [mkPayload 0 0 (true :: false :: true :: repeat false 13) 0 0] /\
+  plan_generic 16 s [2; 0] = Ok [].
+Proof. vm_compute. repeat split; reflexivity. Qed.
